@@ -447,6 +447,12 @@ class BaseProperty(base.BaseObject):
 
         new_value = self._convert_value_input(new_value)
 
+        # An empty iterable of any other kind (iterator, set, range, ...) holds
+        # no values either.
+        if len(new_value) == 0:
+            self._values = []
+            return
+
         old_dtype = self._dtype
         if self._dtype is None:
             self._dtype = dtypes.infer_dtype(new_value[0])
